@@ -327,7 +327,9 @@ def run(ctx: Ctx):
             rest = [j for j in jobs if j not in tight]
             ctx.rng.shuffle(rest)
             jobs = tight + rest[:14]
-        jobs = jobs + low
+        # a tolerance nothing can meet (NaN: every comparison with it is false): the iteration budget runs out and
+        # non-convergence is reported - MassIter.tla with every residual outside the tolerance
+        jobs = jobs + low + [(m, float('nan'), ('BOS', 'LAX', 1.0)) for m in (2, 3)]
     for job, (devs, trs) in zip(jobs, pmap(run_massiter, jobs)):
         ctx.case_done({'massiter': job})
         for key, desc in devs:
